@@ -253,7 +253,19 @@ impl C09 {
         let ups = rr::uplink_drs(cfg.region);
         let wild_pct = *r.pick(&[0u64, 20, 50]);
         let template = r.below(10);
-        if template == 0 && cfg.region.is_fixed() {
+        if cfg.phy.is_some() && r.chance(1, 2) {
+            // full stack: sweep the network-commanded TX power levels through the real PA code of the chip driver
+            cfg.otaa = false;
+            let (ctl, mask) = if cfg.region.is_fixed() { (6u8, 0x00FFu16) } else { (0u8, (1u16 << rr::default_channels(cfg.region).len()) - 1) };
+            let n = r.range(1, 4);
+            for _ in 0..n {
+                let mut t = Txn::default();
+                let pow = r.below(rr::max_tx_power_index(cfg.region) as u64 + 1) as u8;
+                t.rx1.push(FrameSpec::Data(frame_with_macs(vec![MacSpec::LinkAdr { dr: 15, pow, mask, ctl, nbtrans: 1 }], false)));
+                ops.push(Op::Send { port: 1, len: 1, confirmed: false, txn: t });
+                ops.push(Op::Send { port: 2, len: 1, confirmed: false, txn: Txn::default() });
+            }
+        } else if template == 0 && cfg.region.is_fixed() {
             // ADR back-off across the bandwidth classes of a fixed plan
             cfg.otaa = false;
             let top = *ups.last().unwrap();
